@@ -21,6 +21,22 @@ ASSUMPTIONS = [
     "bytes hash arguments: ASCII text model (utf-8 decoding of ASCII is the identity)",
 ]
 
+from pyvc.replay import py_replay  # noqa: E402
+
+_UD = """
+from passlib.hash import unix_disabled
+def ident(h): return h == '' or h[0] in '*!'
+"""
+REPLAY_DISABLE = py_replay(_UD, "h = unix_disabled.using(marker=V['marker']); r = h.disable(V['hash'])",
+                           "exc is None and ident(r) and r[0] == V['marker'] and (r == V['marker'] + V['hash'] if (V['hash'] and not ident(V['hash'])) else True) and (r == V['marker'] + V['hash'][1:] if (V['hash'] and ident(V['hash'])) else True) and (r == V['marker'] if not V['hash'] else True)",
+                           {"hash": "!", "marker": "!"}, alts={"hash": {0: None}},
+                           search=lambda seed: [{"hash": h, "marker": m} for m in "!*" for h in (None, "", "!", "*", "!abc", "*abc", "abc", "$1$x", seed.get("hash"))])
+REPLAY_ENABLE = py_replay(_UD, "r = unix_disabled.enable(V['hash'])",
+                          "(exc is None and r == V['hash'][1:] and len(V['hash']) >= 2 and ident(V['hash'])) or (isinstance(exc, ValueError) and (len(V['hash']) <= 1 or not ident(V['hash'])))",
+                          {"hash": "!abc"}, search=lambda seed: [{"hash": h} for h in ("", "!", "*", "!abc", "*abc", "abc", "!!", seed.get("hash") or "x")])
+REPLAY_IDENT = py_replay(_UD, "r = unix_disabled.identify(V['hash'])", "exc is None and r == ident(V['hash'])", {"hash": "*"},
+                         search=lambda seed: [{"hash": h} for h in ("", "!", "*", "!abc", "*abc", "abc", "$1$x", " !")])
+
 MARKER = Union(Const("!"), Const("*"))
 UD = Obj(cls=(M, "unix_disabled"), is_class=True, fields={"default_marker": MARKER})
 IDENT = "(len(hash) == 0 or hash[0:1] == '*' or hash[0:1] == '!' or hash[0:1] == b'*' or hash[0:1] == b'!')"
@@ -31,6 +47,7 @@ CONTRACTS = [
         params={"cls": UD, "hash": Union(Str(), Bytes(), NoneT(), Int())},
         raises_iff={"TypeError": "not isinstance(hash, (str, bytes))"},
         ensures=[("identifies exactly the empty string and strings starting with a marker character", f"result == {IDENT}")],
+        replay=REPLAY_IDENT,
         descr="every str / bytes / other value",
     ),
     Contract(
@@ -56,6 +73,7 @@ CONTRACTS = [
             ("an already disabled string keeps its embedded hash (marker normalised)", f"implies(hash is not None and len(hash) >= 1 and {IDENT}, result == cls.default_marker + hash[1:])"),
             ("no hash, empty string or bare marker: the bare marker", "implies(hash is None or len(hash) == 0, result == cls.default_marker)"),
         ],
+        replay=REPLAY_DISABLE,
         descr="every original hash string incl. None, '', bare markers, already-disabled strings",
     ),
     Contract(
@@ -63,6 +81,7 @@ CONTRACTS = [
         params={"cls": UD, "hash": Str()},
         raises={"ValueError": f"len(hash) <= 1 or not {IDENT}"},
         ensures=[("returns exactly the embedded original", "result == hash[1:] and len(hash) >= 2"), ("only for marker-prefixed strings", IDENT)],
+        replay=REPLAY_ENABLE,
         descr="every string",
     ),
     Contract(
